@@ -30,6 +30,7 @@ class ProofResult:
         self.by_backend = {}
         self.samples = []
         self.source_changed = False
+        self.all_labels = []
         self.info = {}
 
     def summary(self):
@@ -161,11 +162,41 @@ def slim_hyps(ob, small=1200, sim=0.6):
     return keep
 
 
+_VER = None
+
+
+def _versions(text):
+    import re as _re
+    return set(_re.findall(r"\b(?:H|HL|A|AL)_\w+![0-9]+", text))
+
+
+def live_hyps(ob, base=None):
+    """Drop large hypotheses that talk about heap versions unrelated to the goal (facts about states that a later
+    loop havoc / call has replaced). Versions related to the goal: those in it, closed twice under small linking facts."""
+    hyps = base if base is not None else ob.hyps
+    V = _versions(ob.goal.s)
+    for _ in range(2):
+        for h in hyps:
+            if len(h.s) < 900:
+                vs = _versions(h.s)
+                if vs & V:
+                    V |= vs
+    out = []
+    for h in hyps:
+        if len(h.s) < 300 or _versions(h.s) <= V:
+            out.append(h)
+    return out
+
+
 def query_text(ctx, ob, slim=False, drop=()):
     parts = [preamble(ctx, drop)]
     seen = set()
     hyps = ob.hyps
-    if slim == "tight":
+    if slim == "live":
+        hyps = live_hyps(ob)
+    elif slim == "live-slim":
+        hyps = live_hyps(ob, slim_hyps(ob, small=2500, sim=0.5))
+    elif slim == "tight":
         # "this fact survives that heap update": the same-shaped hypotheses plus the small ones only
         hyps = slim_hyps(ob, small=450, sim=0.85)
     elif slim == 2:
@@ -387,6 +418,9 @@ def prove_item(kind, name, tier, seed, known=()):
         if len(ob.hyps) > 60:
             alts.append(("slim2", query_text(ctx, ob, slim=2)))
             alts.append(("tight", query_text(ctx, ob, slim="tight")))
+        if len(ob.hyps) > 90:
+            alts.append(("live", query_text(ctx, ob, slim="live")))
+            alts.append(("live-slim", query_text(ctx, ob, slim="live-slim")))
         if ctx.tags:
             # the two halves of a comprehension characterisation (element -> source, source -> element) feed each
             # other's triggers; most obligations need only one of them
@@ -397,6 +431,7 @@ def prove_item(kind, name, tier, seed, known=()):
     with ThreadPoolExecutor(max_workers=int(os.environ.get("PYVC_WORKERS", "4"))) as ex:
         allres = list(ex.map(work, list(ctx.obligations) + canaries))
     results = [(ob, r) for ob, r in allres if ob.kind != "canary"]
+    res.all_labels = [ob.label for ob in ctx.obligations]
     res.n_obligations = len(ctx.obligations) + len(ctx.trivial)
     res.n_discharged = len(ctx.trivial)
     if ctx.trivial:
